@@ -226,6 +226,10 @@ def run_tissue(ck, case, reqs, pending):
     scale = float(np.max(np.abs(rhs))) + 1e-12
     # connectivity of the cells that have an internal interface (the premise of the least-squares clauses)
     adj = {j: set() for j in range(len(kept_cols))}
+    if any(len(np.nonzero(row)[0]) != 2 for row in L):
+        ck.fail("each equation is (pressure of one adjacent cell) - (pressure of the other)",
+                f"rows with other than two coefficients: {[int(len(np.nonzero(row)[0])) for row in L][:12]}", case)
+        ck.case(case); return
     for row in L:
         a, b = np.nonzero(row)[0]
         adj[a].add(b); adj[b].add(a)
